@@ -244,6 +244,29 @@ func init() {
 		return false
 	})
 
+	// formatting helpers used for log lines only
+	for _, n := range []string{
+		"(*github.com/orda-io/orda/client/pkg/model.PushPullPackOption).String",
+		"(*github.com/orda-io/orda/client/pkg/model.PushPullPack).ToString",
+		"(*github.com/orda-io/orda/client/pkg/model.PushPullMessage).ToString",
+		"(*github.com/orda-io/orda/client/pkg/model.ClientMessage).ToString",
+		"(*github.com/orda-io/orda/client/pkg/model.Header).ToString",
+		"(github.com/orda-io/orda/client/pkg/model.OpList).ToString",
+		"(*github.com/orda-io/orda/client/pkg/model.Operation).ToString",
+	} {
+		reg(n, func(fr *frame, a []value) value { return "<fmt>" })
+	}
+	reg("(google.golang.org/protobuf/internal/impl.Export).MessageStringOf", func(fr *frame, a []value) value { return "<pb>" })
+	reg("(google.golang.org/protobuf/internal/impl.Export).MessageStateOf", func(fr *frame, a []value) value { return zeroResult(fr.fn) })
+	reg("google.golang.org/grpc/status.Error", func(fr *frame, a []value) value {
+		if asInt64(a[0]) == 0 { // codes.OK => nil error
+			return iface{}
+		}
+		return fr.ex.mkError(fr.ex.strConcat("rpc error: ", a[1]))
+	})
+	reg("google.golang.org/grpc/status.Errorf", func(fr *frame, a []value) value {
+		return fr.ex.mkError(fr.ex.strConcat("rpc error: ", fr.ex.sprintf(a[1], a[2].([]value))))
+	})
 	// printing an error with its stack trace is logging only
 	reg("(*github.com/orda-io/orda/client/pkg/errors.singleOrdaError).Print", func(fr *frame, a []value) value { return nil })
 	reg("(*github.com/orda-io/orda/client/pkg/errors.MultipleOrdaErrors).Print", func(fr *frame, a []value) value { return nil })
